@@ -84,15 +84,23 @@ def main():
             r["tier"] = a.tier
             r["verdict"] = {1: "caught", 0: "MISSED", 2: "machinery"}.get(r["rc"], "not run")
             try:
-                head = open(r["patch"]).readline().strip()
+                hdr = open(r["patch"]).readline().strip()
             except OSError:
-                head = ""
-            r["header"] = head[:300] if head.startswith("#") else ""
-            if r["verdict"] == "MISSED" and ("equivalent" in head.lower() or "not expected to be caught" in head.lower()):
+                hdr = ""
+            r["header"] = hdr[:300] if hdr.startswith("#") else ""
+            if r["verdict"] == "MISSED" and ("equivalent" in hdr.lower() or "not expected to be caught" in hdr.lower()):
                 r["verdict"] = "equivalent (not expected to be caught)"
-            results[key] = r
             print("%-60s %-4s %s %s" % (key, r["prop"], r["verdict"], (r.get("violations") or [r.get("note", "")])[:1]))
-            json.dump(results, open(res_path, "w"), indent=1, sort_keys=True)
+            # several runs may be writing: merge into the file's current contents under a lock
+            import fcntl
+
+            with open(res_path + ".lock", "w") as lk:
+                fcntl.flock(lk, fcntl.LOCK_EX)
+                results = json.load(open(res_path)) if os.path.exists(res_path) else {}
+                results[key] = r
+                tmp = res_path + ".tmp%d" % os.getpid()
+                json.dump(results, open(tmp, "w"), indent=1, sort_keys=True)
+                os.replace(tmp, res_path)
     missed = [k for k, r in results.items() if r["verdict"] != "caught" and not r["verdict"].startswith("equivalent")]
     print("%d results, %d not caught" % (len(results), len(missed)))
     return 0
